@@ -148,6 +148,44 @@ class ExprC:
             return ("(({}.length : Nat) : Int)".format(c[0]), "int", True)
         fail("unsupported expression: " + ast.unparse(n), n)
 
+class _Subst(ast.NodeTransformer):
+    def __init__(self, mapping):
+        self.mapping = mapping
+    def visit_Name(self, node):
+        if isinstance(node.ctx, ast.Load) and node.id in self.mapping:
+            return ast.copy_location(ast.parse(ast.unparse(self.mapping[node.id]), mode="eval").body, node)
+        return node
+
+def subst(node, mapping):
+    """copy of `node` with the names of `mapping` replaced by their expressions"""
+    import copy
+    return ast.fix_missing_locations(_Subst(mapping).visit(copy.deepcopy(node)))
+
+class _Inline(ast.NodeTransformer):
+    """replace calls of local single-`return` functions by their body (arguments substituted)"""
+    def __init__(self, funcs):
+        self.funcs = funcs
+    def visit_Call(self, node):
+        self.generic_visit(node)
+        if isinstance(node.func, ast.Name) and node.func.id in self.funcs and not node.keywords:
+            fn = self.funcs[node.func.id]
+            params = [a.arg for a in fn.args.args]
+            if len(params) == len(node.args) and not fn.args.defaults and not fn.args.vararg and not fn.args.kwarg:
+                body = [st for st in fn.body if not (isinstance(st, ast.Expr) and isinstance(st.value, ast.Constant))]
+                if len(body) == 1 and isinstance(body[0], ast.Return) and body[0].value is not None:
+                    return subst(body[0].value, dict(zip(params, node.args)))
+        return node
+
+def inline_local_functions(fn):
+    """local helper functions of `fn` that consist of one return statement are inlined where they are called"""
+    import copy
+    funcs = {st.name: st for st in fn.body if isinstance(st, ast.FunctionDef)}
+    if not funcs:
+        return fn
+    fn = copy.deepcopy(fn)
+    fn.body = [st for st in fn.body if not isinstance(st, ast.FunctionDef)]
+    return ast.fix_missing_locations(_Inline(funcs).visit(fn))
+
 # --------------------------------------------------------------------------- helpers to find code
 
 def parse_file(repo, rel):
@@ -188,7 +226,7 @@ def calls_in(stmt):
 
 def extract_imain(repo):
     tree = parse_file(repo, "telingo/__init__.py")
-    fn = find_func(tree, "imain")
+    fn = inline_local_functions(find_func(tree, "imain"))
     whiles = [n for n in fn.body if isinstance(n, ast.While)]
     if len(whiles) != 1:
         fail("imain: expected exactly one while loop")
@@ -211,9 +249,15 @@ def extract_imain(repo):
     part_if = None
     for n in ast.walk(loop):
         if isinstance(n, ast.For) and ast.unparse(n.target) == "i" and ast.unparse(n.iter) == "rng":
-            ifs = [s for s in n.body if isinstance(s, ast.If)]
-            if len(ifs) == 1 and len(n.body) == 1 and not ifs[0].orelse:
-                part_if = ifs[0]
+            # local names bound by simple assignments before the `if` (e.g. `start = step - i`) are substituted
+            loc, rest = {}, list(n.body)
+            while rest and isinstance(rest[0], ast.Assign) and len(rest[0].targets) == 1 and isinstance(rest[0].targets[0], ast.Name) \
+                    and rest[0].targets[0].id not in ("step", "i", "root_name", "part_name", "rng", "parts"):
+                loc[rest[0].targets[0].id] = subst(rest[0].value, loc)
+                rest = rest[1:]
+            if len(rest) == 1 and isinstance(rest[0], ast.If) and not rest[0].orelse:
+                part_if = subst(rest[0], loc) if loc else rest[0]
+                n.body = [part_if]
     if part_if is None:
         fail("imain: part selection `if` not found")
     app = part_if.body
@@ -377,7 +421,13 @@ def compile_parser(fn, attr, ty):
                 return True
             elif isinstance(st, ast.If) and not st.orelse:
                 env = Env({"value": "str"})
-                c = ExprC(env).expr(st.test)
+                test = st.test
+                if isinstance(test, ast.Name) and env.types.get(test.id) == "str":
+                    test = ast.parse("len({}) > 0".format(test.id), mode="eval").body       # truthiness of a string
+                elif isinstance(test, ast.UnaryOp) and isinstance(test.op, ast.Not) and isinstance(test.operand, ast.Name) \
+                        and env.types.get(test.operand.id) == "str":
+                    test = ast.parse("len({}) == 0".format(test.operand.id), mode="eval").body
+                c = ExprC(env).expr(test)
                 if not c[2]:
                     fail("impure test in option parser", st)
                 lines.append(indent + "if {} then do".format(c[0]))
@@ -633,13 +683,35 @@ def extract_directive(repo):
         if isinstance(st, ast.Assign):
             assign(st)
         elif isinstance(st, ast.If):
-            if st.orelse or not all(isinstance(x, ast.Assign) for x in st.body):
-                fail("visit_Program: unexpected conditional", st)
-            g = cexpr(st.test, types)
-            if g[1] != "bool":
-                fail("visit_Program: non-boolean test", st)
-            for x in st.body:
-                assign(x, g[0])
+            # if / elif chain of assignments: the guard of a later branch is "no earlier guard held and its own test"
+            node, k, prev = st, 0, []
+            while node is not None:
+                if not all(isinstance(x, ast.Assign) for x in node.body):
+                    fail("visit_Program: unexpected conditional", node)
+                g = cexpr(node.test, types)
+                if g[1] != "bool":
+                    fail("visit_Program: non-boolean test", node)
+                gname = "g{}_{}".format(len(lines), k)
+                lines.append("  let {} := {}".format(gname, " && ".join(["!" + p for p in prev] + [g[0]])))
+                for x in node.body:
+                    assign(x, gname)
+                prev.append(gname)
+                k += 1
+                if not node.orelse:
+                    node = None
+                elif len(node.orelse) == 1 and isinstance(node.orelse[0], ast.If):
+                    node = node.orelse[0]
+                else:
+                    fail("visit_Program: unexpected else branch", node)
+        elif (isinstance(st, ast.For) and isinstance(st.target, ast.Name) and isinstance(st.iter, (ast.Tuple, ast.List)) and not st.orelse
+              and len(st.body) == 1 and isinstance(st.body[0], ast.Expr) and isinstance(st.body[0].value, ast.Call)
+              and ast.unparse(st.body[0].value.func) == "prg.parameters.append"
+              and ast.unparse(st.body[0].value.args[0]) == "_ast.Id(prg.location, {})".format(st.target.id)):
+            for e in st.iter.elts:
+                m = re.match(r"^_tf\.(g_time_parameter_name(?:_alt)?)$", ast.unparse(e))
+                if not m:
+                    fail("visit_Program: unexpected parameter " + ast.unparse(e), st)
+                params.append(m.group(1))
         elif isinstance(st, ast.Expr) and isinstance(st.value, ast.Call) and ast.unparse(st.value.func) == "prg.parameters.append":
             a = ast.unparse(st.value.args[0])
             m = re.match(r"^_ast\.Id\(prg\.location, _tf\.(g_time_parameter_name(?:_alt)?)\)$", a)
@@ -685,11 +757,10 @@ def table_lean(name, entries):
 def strlist(xs):
     return "[" + ", ".join(lean_str(x) for x in xs) + "]"
 
-def generate(repo):
-    files = {}
+def _gen_imain(repo):
     im = extract_imain(repo)
     op = extract_options(repo)
-    files["Imain.lean"] = HEADER + """import TelModel.Py
+    return HEADER + """import TelModel.Py
 set_option linter.unusedVariables false
 namespace TelModel.Generated
 
@@ -737,6 +808,8 @@ end TelModel.Generated
            pimin=op["imin"], pimax=op["imax"], pistop=op["istop"],
            dimin=op["defaults"]["imin"], dimax=op["defaults"]["imax"], distop=op["defaults"]["istop"])
 
+
+def _gen_tables(repo):
     tables, atoms = theory_tables(repo)
     ops = op_sets(repo)
     cs = constants(repo)
@@ -772,10 +845,12 @@ structure OpEntry where
     t += "def falseAtom : String := {}\n".format(lean_str(cs["g_tel_false_atom"]))
     t += "def shiftVariable : String := {}\n".format(lean_str(cs["g_tel_shift_variable"]))
     t += "\nend TelModel.Generated\n"
-    files["Tables.lean"] = t
+    return t
 
+
+def _gen_directive(repo):
     dr = extract_directive(repo)
-    files["Directive.lean"] = HEADER + """namespace TelModel.Generated
+    return HEADER + """namespace TelModel.Generated
 
 /-- E11. `ProgramTransformer.visit_Program`: (new part name, final flag, part recorded for the following statements)
     for a `#program name.` directive; the directive also gets the parameters `(__t, __u)` -/
@@ -785,8 +860,10 @@ def visitProgram (name : String) : String × Bool × String :=
 
 end TelModel.Generated
 """
+
+def _gen_flags(repo):
     fl = extract_flags(repo)
-    files["Flags.lean"] = HEADER + """set_option linter.unusedVariables false
+    return HEADER + """set_option linter.unusedVariables false
 namespace TelModel.Generated
 
 /-- E7. arguments passed to the term transformer for a symbolic atom, as functions of the
@@ -802,18 +879,23 @@ def delRejected (negation constraint : Bool) : Bool := {dg}
 
 end TelModel.Generated
 """.format(rf=fl["replaceFuture"], ff=fl["failFuture"], fp=fl["failPast"], tg=fl["telGuard"], dg=fl["delGuard"])
-    return files
+
+def generate(repo):
+    """every generated file on its own: a source shape the translator does not understand makes that file fail, not the others"""
+    files, errors = {}, {}
+    for name, fn in (("Imain.lean", _gen_imain), ("Tables.lean", _gen_tables), ("Directive.lean", _gen_directive), ("Flags.lean", _gen_flags)):
+        try:
+            files[name] = fn(repo)
+        except ExtractError as e:
+            errors[name] = str(e)
+    return files, errors
 
 def main():
     repo = os.environ.get("TELINGO_REPO", "/repo")
     out = os.path.join(os.path.dirname(os.path.dirname(os.path.abspath(__file__))), "lean", "TelModel", "Generated")
     if len(sys.argv) > 1:
         out = sys.argv[1]
-    try:
-        files = generate(repo)
-    except ExtractError as e:
-        print("EXTRACT-ERROR: {}".format(e))
-        sys.exit(3)
+    files, errors = generate(repo)
     os.makedirs(out, exist_ok=True)
     changed = []
     for name, content in files.items():
@@ -823,7 +905,12 @@ def main():
             with open(p, "w") as f:
                 f.write(content)
             changed.append(name)
-    print("extract: ok, {} file(s) changed{}".format(len(changed), (": " + ", ".join(changed)) if changed else ""))
+    for name, msg in errors.items():
+        # the file keeps its previous content (the model of the code as it was); the checks whose proofs depend on it report this
+        print("EXTRACT-ERROR {}: {}".format(name, msg))
+    print("extract: {}, {} file(s) changed{}".format("ok" if not errors else "{} file(s) failed".format(len(errors)), len(changed), (": " + ", ".join(changed)) if changed else ""))
+    if errors:
+        sys.exit(3)
 
 if __name__ == "__main__":
     main()
